@@ -75,7 +75,7 @@ def one(seed_dir, run_tests=True):
             res["tests_ok"] = STABLE <= passed
         caught = {}
         for p in PROPS:
-            c = sh([os.path.join(V, "check"), p, "--root", wt, "--tier", "quick"])
+            c = sh([os.path.join(V, "check"), p, "--root", wt, "--tier", "quick"], env=dict(os.environ, SA_EVIDENCE_DIR=os.path.join(wt, ".verif-evidence")))
             if c.returncode == 1:
                 caught[p] = [l.strip()[:300] for l in c.stdout.splitlines() if l.startswith("  C")][:3]
             elif c.returncode == 2:
